@@ -763,8 +763,8 @@ func (c *Cluster) checkApiHangs() {
 		if !call.Returned || call.OK || call.AppendedIndex == 0 || call.AppliedAtNs == 0 {
 			continue
 		}
-		deadline := call.InvokeNs + call.TimeoutMs*1_000_000
-		if call.AppliedAtNs+int64(c.Cfg.HeartbeatMs)*1_000_000 < deadline {
+		// The future was still pending (it failed later, at ReturnNs) when the entry was applied.
+		if call.AppliedAtNs+int64(c.Cfg.HeartbeatMs)*1_000_000 < call.ReturnNs {
 			r.violate("C18", "membership-future", "unresolved-after-commit", "%s(%s) at %s appended configuration %d in term %d, which the node applied at %dms while still leader of that term, yet the future failed with %s at %dms (timeout %dms)",
 				call.Kind, call.Node, call.Target.Name(), call.AppendedIndex, call.AppendedTerm, call.AppliedAtNs/1_000_000, call.ErrKind, call.ReturnNs/1_000_000, call.TimeoutMs)
 		}
